@@ -641,7 +641,7 @@ func (ex *Exec) frameTerms(st *State, ms *ModSet, names []string) []frameTerm {
 			}
 			if strings.HasPrefix(name, "map") {
 				w := Var("fw.map", SInt)
-				hyp := notFresh(w)
+				hyp := And(notFresh(w), Ne(w, Int(0)))
 				rest := name[strings.Index(name, ":")+1:]
 				for mk, ids := range ms.Maps {
 					if strings.HasPrefix(rest, mk) {
